@@ -77,7 +77,7 @@ func (g *G) BoolOperand(ctx *xdoc.Node) xast.Expr {
 
 // Comparison draws one comparison from exactly the operand matrix C07 states.
 func (g *G) Comparison(ctx *xdoc.Node) *xast.Bin {
-	ns := func() xast.Expr { return g.FlatPath(xref.NodeSet{ctx}) }
+	ns := func() xast.Expr { return g.FlatArg(xref.NodeSet{ctx}) }
 	flip := func(b *xast.Bin) *xast.Bin {
 		if rapid.Bool().Draw(g.T, "flipcmp") {
 			b.L, b.R = b.R, b.L
@@ -345,7 +345,7 @@ func (g *G) SubstrNum() xast.Expr {
 // (taken as the string-value of its first node).
 func (g *G) StrArg(ctx *xdoc.Node, depth int, nodeOK bool) xast.Expr {
 	if nodeOK && g.chance(3, "nodearg") {
-		return g.FlatPath(xref.NodeSet{ctx})
+		return g.FlatArg(xref.NodeSet{ctx})
 	}
 	if depth <= 0 || g.chance(4, "strleaf") {
 		return &xast.Str{S: g.pick(strPool, "spool"), DQ: g.chance(2, "dq")}
@@ -381,7 +381,7 @@ func (g *G) StrExpr(ctx *xdoc.Node, depth int) xast.Expr {
 	case 6:
 		return &xast.Call{Name: "lower-case", Args: []xast.Expr{g.StrArg(ctx, depth, true)}}
 	case 7:
-		return &xast.Call{Name: "string-join", Args: []xast.Expr{g.FlatPath(xref.NodeSet{ctx}), g.StrArg(ctx, 0, false)}}
+		return &xast.Call{Name: "string-join", Args: []xast.Expr{g.FlatArg(xref.NodeSet{ctx}), g.StrArg(ctx, 0, false)}}
 	case 8:
 		return &xast.Call{Name: "string", Args: []xast.Expr{g.StrArg(ctx, depth, true)}}
 	}
